@@ -119,7 +119,7 @@ MODEL_PATHS = [
 ]
 LOAD_ENTRIES = ["load_numpy", "load_tobytes", "load_tofile"]
 # where in the model file the external tensor sits ("all tensors of the model" get the base directory)
-PLACES = ["main_init", "main_attr", "main_attr_list", "sub_init", "sub_attr", "sub2_init", "sub2_attr", "func_attr", "func_sub_attr", "func_sub_init", "funcdefault", "funcdefault_list"]
+PLACES = ["main_init", "main_attr", "main_attr_list", "sub_init", "sub_attr", "sub2_init", "sub2_attr", "func_attr", "func_sub_attr", "func_sub_init", "funcdefault", "funcdefault_list", "graphs_init", "graphs_attr"]
 # multi-step histories on ONE tensor object: read, change the world or the base directory, read again
 HIST_LOCS = ["a.bin", "sub/b.bin", "sub/deeper/c.bin", "link_in", "dlink_in/b.bin"]
 HIST_FIRST = ["numpy", "tobytes", "tofile_bytesio", "asarray", "none"]
@@ -362,6 +362,32 @@ def _write_model_file(path: str, loc: str, off: int, ln: int, place: str = "main
         else:
             ap.type = onnx.AttributeProto.TENSOR
             t = ap.t
+        t.name = "x"
+        t.data_type = onnx.TensorProto.UINT8
+        t.dims.append(ln)
+        t.data_location = onnx.TensorProto.EXTERNAL
+        for k, v in (("location", loc), ("offset", str(off)), ("length", str(ln))):
+            e = t.external_data.add()
+            e.key, e.value = k, v
+        with open(path, "wb") as fh:
+            fh.write(m.SerializeToString())
+        return
+    if place.startswith("graphs_"):
+        # inside one of the graphs of a list-of-graphs attribute (AttributeType.GRAPHS) of a custom operator
+        m.opset_import.add().domain = "custom"
+        m.opset_import[-1].version = 1
+        nd = m.graph.node.add()
+        nd.op_type, nd.domain, nd.name = "Switch", "custom", "sw"
+        nd.input.append("cond")
+        nd.output.append("sw_out")
+        at = nd.attribute.add()
+        at.name, at.type = "branches", onnx.AttributeProto.GRAPHS
+        g0 = at.graphs.add()
+        g0.name = "case0"
+        g1 = at.graphs.add()
+        g1.name = "case1"
+        cont2 = g1
+        t = cont2.initializer.add() if place.endswith("init") else _const_node(cont2)
         t.name = "x"
         t.data_type = onnx.TensorProto.UINT8
         t.dims.append(ln)
